@@ -9,6 +9,7 @@ import (
 
 	"github.com/New-JAMneration/JAM-Protocol/internal/types"
 	"github.com/New-JAMneration/JAM-Protocol/internal/utilities"
+	"github.com/New-JAMneration/JAM-Protocol/internal/zzverif/sim"
 	vrf "github.com/New-JAMneration/JAM-Protocol/pkg/Rust-VRF/vrf-func-ffi/src"
 )
 
@@ -185,7 +186,7 @@ var mutations = []mutation{
 		case 0:
 			e[0], e[len(e)-1] = e[len(e)-1], e[0]
 		case 1: // two neighbours
-			k := ru.t.Choose(len(e)-1, "swap_at")
+			k := boundaryPos(ru.t, len(e)-1, "swap_at")
 			e[k], e[k+1] = e[k+1], e[k]
 		default: // the first entry moves to the end
 			e = append(e[1:], e[0])
@@ -199,7 +200,14 @@ var mutations = []mutation{
 		if len(e) < 1 {
 			return false
 		}
-		b.Extrinsic.Preimages = append(append(types.PreimagesExtrinsic(nil), e[0]), e...)
+		// one entry appears twice in a row (anywhere in the list)
+		k := boundaryPos(ru.t, len(e), "duplicate_at")
+		d := append(types.PreimagesExtrinsic(nil), e[:k+1]...)
+		d = append(d, e[k])
+		b.Extrinsic.Preimages = append(d, e[k+1:]...)
+		if len(b.Extrinsic.Preimages) > 64 {
+			ru.r.Count("probe:damaged_preimage_extrinsic_longer_than_64", 1)
+		}
 		fixExtrinsicHash(b)
 		return true
 	}},
@@ -415,4 +423,19 @@ var mutations = []mutation{
 		}
 		return true
 	}},
+}
+
+// boundaryPos picks a position in [0,n): in a long list half of the time the last position before a multiple of 16, 32
+// or 64 (where an implementation that works in chunks has its seams), else anywhere.
+func boundaryPos(t *sim.Tape, n int, label string) int {
+	if n > 16 && t.Prob(1, 2, label+"_at_chunk_boundary") {
+		step := []int{16, 32, 64}[t.Choose(3, label+"_chunk")]
+		if n >= step {
+			m := 1 + t.Choose(n/step, label+"_chunk_index")
+			if k := m*step - 1; k < n {
+				return k
+			}
+		}
+	}
+	return t.Choose(n, label)
 }
